@@ -139,6 +139,23 @@ fn zeros(n: usize) -> String {
 }
 
 /// all vectors in {-b..b}^k except 0
+/// an accepted instance (from `make`) whose canonical scalar at byte offset `f` is below 2^248, with the group
+/// order added to that scalar: a non-canonical encoding whose top byte is 0x10, just above the order
+pub fn plus_ell_small(make: &mut dyn FnMut() -> Option<Vec<u8>>, f: usize) -> Option<Vec<u8>> {
+    let ell = ell_bytes();
+    for _ in 0..400 {
+        let b = make()?;
+        if f + 32 > b.len() { return None; }
+        if b[f + 31] != 0 { continue; }
+        let cur: [u8; 32] = b[f..f + 32].try_into().ok()?;
+        let n = add256(&cur, &ell)?;
+        let mut m = b.clone();
+        m[f..f + 32].copy_from_slice(&n);
+        return Some(m);
+    }
+    None
+}
+
 pub fn residual_box(k: usize, b: i8) -> Vec<Vec<i8>> {
     let mut out = vec![];
     let side = (2 * b + 1) as usize;
@@ -378,6 +395,29 @@ fn c01_ctct(o: &mut Out, r: &mut Rng, reps: usize) {
         }
         o.op("ctct.zero-nonce", &format!("mprove R ctct {} {} {} {} {}", st.mwit(&x), ZERO_PT, ZERO_PT, ZERO_PT, zeros(4)));
         for ns in nonce_subsets(r, 3) { o.op("ctct.zero-nonce-subset", &format!("mprove - ctct {} {} {}", st.mwit(&x), ns, zeros(4))); }
+        // first ciphertext with identity commitment that still decrypts to x (handle = -(x/s)*G); second likewise is
+        // impossible (it would need x = r = 0): the identity policy must refuse the first
+        {
+            let xs = Scalar::from(a.max(1));
+            let mut g = ctct_st(r, a.max(1), a.max(1));
+            g.c1 = RistrettoPoint::identity();
+            g.d1 = -(xs * g.k1.s.invert()) * G;
+            o.op("ctct.id-first-commitment", &format!("mprove R ctct {} {} {}", g.mwit(&xs), nonces(r, 3), zeros(4)));
+            o.op("ctct.id-first-commitment.new", &format!("new ctct {} {}", g.wit(), nonces(r, 3)));
+        }
+        // zero amount and / or zero second opening with zero nonces: responses that are exactly zero (z_x = c*0 + 0,
+        // z_r = c*0 + 0) are canonical scalars like any other
+        {
+            let z0 = ctct_st(r, 0, 0);
+            let zero = Scalar::ZERO;
+            for ns in nonce_subsets(r, 3) { o.op("ctct.zero-amount.zero-nonce-subset", &format!("mprove - ctct {} {} {}", z0.mwit(&zero), ns, zeros(4))); }
+            let mut z1 = ctct_st(r, 0, 0);
+            z1.r = Scalar::ZERO; z1.c2 = RistrettoPoint::identity(); z1.d2 = RistrettoPoint::identity();
+            for ns in nonce_subsets(r, 3) { o.op("ctct.zero-amount-zero-opening.zero-nonce-subset", &format!("mprove - ctct {} {} {}", z1.mwit(&zero), ns, zeros(4))); }
+            let mut z2 = ctct_st(r, a, a);
+            z2.r = Scalar::ZERO; z2.c2 = Scalar::from(a) * G; z2.d2 = RistrettoPoint::identity();
+            for ns in nonce_subsets(r, 3) { o.op("ctct.zero-opening.zero-nonce-subset", &format!("mprove - ctct {} {} {}", z2.mwit(&Scalar::from(a)), ns, zeros(4))); }
+        }
         // second ciphertext = identity is allowed (x = 0, r = 0)
         let mut z = ctct_st(r, 0, 0);
         z.c2 = RistrettoPoint::identity();
@@ -424,6 +464,24 @@ fn c01_ctcmt(o: &mut Out, r: &mut Rng, reps: usize) {
         }
         o.op("ctcmt.zero-nonce", &format!("mprove R ctcmt {} {} {} {} {}", st.mwit(&x), ZERO_PT, ZERO_PT, ZERO_PT, zeros(3)));
         for ns in nonce_subsets(r, 3) { o.op("ctcmt.zero-nonce-subset", &format!("mprove - ctcmt {} {} {}", st.mwit(&x), ns, zeros(3))); }
+        // a ciphertext whose commitment component is the identity but which still decrypts to x under the key
+        // (handle = -(x/s)*G): every equation can be satisfied, the identity policy must refuse it
+        {
+            let xs = Scalar::from(a.max(1));
+            let mut g = ctcmt_st(r, a.max(1), a.max(1));
+            g.c = RistrettoPoint::identity();
+            g.d = -(xs * g.k.s.invert()) * G;
+            o.op("ctcmt.id-ciphertext-commitment", &format!("mprove R ctcmt {} {} {}", g.mwit(&xs), nonces(r, 3), zeros(3)));
+            o.op("ctcmt.id-ciphertext-commitment.new", &format!("new ctcmt {} {}", g.wit(), nonces(r, 3)));
+        }
+        {
+            let z0 = ctcmt_st(r, 0, 0);
+            let zero = Scalar::ZERO;
+            for ns in nonce_subsets(r, 3) { o.op("ctcmt.zero-amount.zero-nonce-subset", &format!("mprove - ctcmt {} {} {}", z0.mwit(&zero), ns, zeros(3))); }
+            let mut z2 = ctcmt_st(r, a, a);
+            z2.r = Scalar::ZERO; z2.cm = Scalar::from(a) * G;
+            for ns in nonce_subsets(r, 3) { o.op("ctcmt.zero-opening.zero-nonce-subset", &format!("mprove - ctcmt {} {} {}", z2.mwit(&Scalar::from(a)), ns, zeros(3))); }
+        }
         let mut z = ctcmt_st(r, 0, 0);
         z.cm = RistrettoPoint::identity();
         z.r = Scalar::ZERO;
@@ -629,6 +687,13 @@ fn val_family(o: &mut Out, r: &mut Rng, n: usize, batched: bool) {
     // y_r = 0 only: Y_1.. are the identity -> refused (non-auditor masking commitments)
     o.op(&format!("{}.zero-yr", name), &format!("mprove R {} {} {} {} {}", name, mw, ZERO_PT, hs(&rand_nonzero(r)), zeros(k)));
     for ns in nonce_subsets(r, 2) { o.op(&format!("{}.zero-nonce-subset", name), &format!("mprove - {} {} {} {}", name, mw, ns, zeros(k))); }
+    // zero amount(s) with zero nonces: the response z_x is then exactly zero, a canonical scalar like any other
+    {
+        let (_, mw0) = mk(r, 0, 0, None);
+        for ns in nonce_subsets(r, 2) { o.op(&format!("{}.zero-amount.zero-nonce-subset", name), &format!("mprove - {} {} {} {}", name, mw0, ns, zeros(k))); }
+        let (_, mw1) = mk(r, 0, b, None);
+        for ns in nonce_subsets(r, 2) { o.op(&format!("{}.zero-lo-amount.zero-nonce-subset", name), &format!("mprove - {} {} {} {}", name, mw1, ns, zeros(k))); }
+    }
     // identity commitment with a consistent witness (amount 0, opening 0: the whole grouped ciphertext is
     // the identity and every equation holds): refused by the policy; batched: lo alone, hi alone, both
     let zero = hs(&Scalar::ZERO);
@@ -1119,6 +1184,39 @@ pub fn gen_c20(o: &mut Out, tier: &str, seed: u64) {
                 f.lo.ds[0] += d; f.hi.ds[0] -= d;
                 bad(o, &mut r, &format!("{}.joint.lo-hi-shift", bname), &bname, f.wit(), 2);
             }
+            // the permitted no-auditor statement (last key = identity, last handles = identity): every component is
+            // still checked, the auditor's handle included (it can only be the identity)
+            {
+                let mut ps: Vec<RistrettoPoint> = (0..n).map(|_| kp(&mut r).p).collect();
+                ps[n - 1] = RistrettoPoint::identity();
+                let f = val_st(&mut r, n, a, Some(ps.clone()));
+                good(o, &mut r, &format!("{}.noaud.ok", name), &name, f.wit(), 2);
+                for i in 0..(n + 1) {
+                    let mut f = val_st(&mut r, n, a, Some(ps.clone()));
+                    if i == 0 { f.c += rp(&mut r); } else { f.ds[i - 1] += rp(&mut r); }
+                    bad(o, &mut r, &format!("{}.noaud.point{}", name, i), &name, f.wit(), 2);
+                }
+                let f = bval_st(&mut r, n, a, 9, Some(ps.clone()));
+                good(o, &mut r, &format!("{}.noaud.ok", bname), &bname, f.wit(), 2);
+                for hi in [false, true] {
+                    for i in 0..(n + 1) {
+                        let mut f = bval_st(&mut r, n, a, 9, Some(ps.clone()));
+                        let t = if hi { &mut f.hi } else { &mut f.lo };
+                        if i == 0 { t.c += rp(&mut r); } else { t.ds[i - 1] += rp(&mut r); }
+                        bad(o, &mut r, &format!("{}.noaud.{}.point{}", bname, if hi { "hi" } else { "lo" }, i), &bname, f.wit(), 2);
+                    }
+                }
+                // equal keys: every component still checked
+                let pe = vec![ps[0]; n];
+                for i in 1..(n + 1) {
+                    let mut f = val_st(&mut r, n, a, Some(pe.clone()));
+                    f.ds[i - 1] += rp(&mut r);
+                    bad(o, &mut r, &format!("{}.equal-keys.point{}", name, i), &name, f.wit(), 2);
+                    let mut f = bval_st(&mut r, n, a, 9, Some(pe.clone()));
+                    f.hi.ds[i - 1] += rp(&mut r);
+                    bad(o, &mut r, &format!("{}.equal-keys.hi.point{}", bname, i), &bname, f.wit(), 2);
+                }
+            }
             // lo and hi swapped (each valid for the other's amount)
             let f = bval_st(&mut r, n, 5, 9, None);
             let sw = BVal { lo: Val { amt: 5, r: f.lo.r, ..val_clone(&f.hi) }, hi: Val { amt: 9, r: f.hi.r, ..val_clone(&f.lo) } };
@@ -1217,6 +1315,12 @@ pub fn gen_c19(o: &mut Out, tier: &str, seed: u64) {
     d(o, "keygen", format!("fresh keygen {}", n));
     d(o, "aekeygen", format!("fresh aekeygen {}", n));
     d(o, "opening", format!("fresh opening {}", n));
+    // more than 2^16 calls of the cheap entry points in one process (a counter that wraps, a pool that is reused)
+    let big = 70_000;
+    d(o, "aekeygen.many", format!("fresh aekeygen {}", big));
+    d(o, "opening.many", format!("fresh opening {}", big));
+    d(o, "seckeygen.many", format!("fresh seckeygen {}", big));
+    d(o, "ae.many", format!("fresh ae {} 77 {}", hex(&r.bytes(16)), big));
     for a in [0u64, 1, u64::MAX] { d(o, "pedersen", format!("fresh pedersen {} {}", a, n)); }
     let k = kp(&mut r);
     for a in [0u64, 77, u64::MAX] { d(o, "enc", format!("fresh enc {} {} {}", hp(&k.p), a, n)); }
